@@ -4,6 +4,7 @@ import (
 	"flag"
 	"fmt"
 	"os"
+	"runtime/pprof"
 	"strings"
 	"time"
 
@@ -42,8 +43,14 @@ func cmdRun(args []string) {
 	verbose := fs.Bool("v", false, "")
 	logs := fs.Bool("logs", false, "")
 	dbgPure := fs.Bool("dbgpure", false, "")
+	prof := fs.String("cpuprofile", "", "")
 	fs.Parse(args)
 	sx.DebugPure = *dbgPure
+	if *prof != "" {
+		pf, _ := os.Create(*prof)
+		pprof.StartCPUProfile(pf)
+		defer pprof.StopCPUProfile()
+	}
 	t0 := time.Now()
 	p, err := sx.Load(*repo, *hdir, *tags, "engine")
 	if err != nil {
